@@ -10,7 +10,7 @@ scalars joined by ",", or `fmt.Sprint` of a slice ("[1 2]").  Text ↔ number co
 
 Branch by branch:
   * decode: query/header/path take the FIRST raw value of the key (`values[0]`, `raw[0]`), cookies the first cookie of
-    that name; an empty raw value decodes to nil; a schema without `type` never yields a value (only `found`);
+    that name; an empty raw value decodes to nil (found, except for a path parameter: not found); a schema without `type` never yields a value (only `found`);
     arrays: query with explode → one item per raw value, otherwise the first raw value split at ","; header: split at
     ","; cookie: split at ",", and explode=true is "invalid serialization method"; an item that decodes to nil makes
     the whole array nil; an array without items is nil;
@@ -139,7 +139,7 @@ def decode (p : Param) (raw : Option (List Wire)) : Decoded :=
     | some (w :: _) =>
       match parseScalar t w with
       | .err => .err
-      | .nil => .nil true
+      | .nil => .nil (p.loc != .path)      -- an empty path segment counts as "not found"
       | .val _ => .val
   | .array t =>
     if p.loc = .cookie && p.explode then .err
@@ -179,9 +179,9 @@ def dfltValid (ty : PTy) (d : PVal) : Bool :=
   | .array t, .list as => as.all (scalarHasType t)
   | _, _ => false
 
-/-- ValidateParameter: store afterwards and verdict -/
-def paramStep (skip : Bool) (p : Param) (st : Store) : Store × Bool :=
-  match decode p (st.get p.key) with
+/-- ValidateParameter once the raw values `raw` of the parameter's key have been looked up: store afterwards and verdict -/
+def stepWith (skip : Bool) (p : Param) (raw : Option (List Wire)) (st : Store) : Store × Bool :=
+  match decode p raw with
   | .err => (st, false)
   | .val => (st, true)
   | .nil found =>
@@ -191,6 +191,9 @@ def paramStep (skip : Bool) (p : Param) (st : Store) : Store × Bool :=
     | none =>
       (st, !(p.required && !found) && !(found && !p.allowEmpty))
 
+/-- ValidateParameter on a request whose parameters are `st` -/
+def paramStep (skip : Bool) (p : Param) (st : Store) : Store × Bool := stepWith skip p (st.get p.key) st
+
 /-- the parameter loops of ValidateRequest (fail-first stops at the first failing parameter) -/
 def paramsPhase (skip multi : Bool) : List Param → Store → Store × Bool
   | [], st => (st, true)
@@ -199,6 +202,21 @@ def paramsPhase (skip multi : Bool) : List Param → Store → Store × Bool
     if !ok && !multi then (st1, false)
     else
       let (st2, ok2) := paramsPhase skip multi ps st1
+      (st2, ok && ok2)
+
+/-- The code as it is: QUERY parameters are decoded from `RequestValidationInput.QueryParams` — a cache that
+    `GetQueryParams` fills from the URL at its first use and never refreshes — while defaults are written into the URL.
+    `view` is that cache (for a fresh input: the query as it was when the validation began). -/
+def paramStepCached (skip : Bool) (view : Store) (p : Param) (st : Store) : Store × Bool :=
+  stepWith skip p ((if p.loc = .query then view else st).get p.key) st
+
+def paramsPhaseCached (skip multi : Bool) (view : Store) : List Param → Store → Store × Bool
+  | [], st => (st, true)
+  | p :: ps, st =>
+    let (st1, ok) := paramStepCached skip view p st
+    if !ok && !multi then (st1, false)
+    else
+      let (st2, ok2) := paramsPhaseCached skip multi view ps st1
       (st2, ok && ok2)
 
 /-! ### exclusion classes (new findings of this check) and the spec -/
@@ -224,6 +242,12 @@ def SprintArrayDefault (skip : Bool) (p : Param) (st : Store) : Bool :=
   !skip && (p.loc == .header || p.loc == .cookie) &&
   (match p.dflt with | some (.list _) => true | _ => false) &&
   (match decode p (st.get p.key) with | .nil _ => true | _ => false)
+
+/-- F-C13-6: the second validation REUSES the RequestValidationInput of the first: its query cache does not contain
+    the default the first validation wrote into the URL, so the default is written again -/
+def StaleQueryCache (reuse skip : Bool) (p : Param) (st0 : Store) : Bool :=
+  reuse && !skip && p.loc == .query && p.dflt.isSome &&
+  (match decode p (st0.get p.key) with | .nil _ => true | _ => false)
 
 /-- the parameters of one operation have pairwise distinct (location, name) -/
 def keysDistinct : List Param → Bool
